@@ -1,8 +1,10 @@
 package migrate
 
-import "maps"
-
-import "go/types"
+import (
+	"go/ast"
+	"go/types"
+	"maps"
+)
 
 // transformNewSet transforms wire.NewSet to kessoku.Set.
 func (t *Transformer) transformNewSet(ws *WireNewSet, pkg *types.Package) (*KessokuSet, error) {
@@ -57,6 +59,9 @@ func (t *Transformer) transformElements(elements []WirePattern, pkg *types.Packa
 	// These are the types for which wire.Bind creates an implicit provider
 	boundTypes := t.collectBoundTypes(elements)
 
+	// The provider functions of this list, by the type of their first result
+	providersByResult := t.collectProviders(elements)
+
 	// Merge FieldsOf patterns with the same struct type
 	mergedFieldsOf := t.mergeFieldsOf(elements)
 
@@ -77,9 +82,21 @@ func (t *Transformer) transformElements(elements []WirePattern, pkg *types.Packa
 			// Flatten nested set elements into parent
 			result = append(result, nestedSet.Elements...)
 		case *WireBind:
-			transformed, err := t.transformBind(we, pkg)
-			if err != nil {
-				return nil, err
+			// The provider of the implementation is the one listed next to the binding,
+			// whatever it is called; only without one is a constructor looked up by name.
+			var transformed *KessokuBind
+			if provider, ok := providersByResult[boundTypeKey(we)]; ok {
+				transformed = &KessokuBind{
+					Interface: unwrapPointer(we.Interface),
+					Provider:  &KessokuProvide{FuncExpr: withoutPositions(provider.Expr), SourcePos: we.Pos},
+					SourcePos: we.Pos,
+				}
+			} else {
+				var err error
+				transformed, err = t.transformBind(we, pkg)
+				if err != nil {
+					return nil, err
+				}
 			}
 			implKey := resolvedTypeKey(we.Implementation)
 			if first, ok := bindsByImpl[implKey]; ok {
@@ -123,6 +140,58 @@ func (t *Transformer) transformElements(elements []WirePattern, pkg *types.Packa
 	return result, nil
 }
 
+// withoutPositions rebuilds a provider reference (NewX or pkg.NewX) from fresh nodes, so that it
+// is laid out at the place of the binding and not where the provider was listed.
+func withoutPositions(expr ast.Expr) ast.Expr {
+	switch e := expr.(type) {
+	case *ast.Ident:
+		return ast.NewIdent(e.Name)
+	case *ast.SelectorExpr:
+		return &ast.SelectorExpr{X: withoutPositions(e.X), Sel: ast.NewIdent(e.Sel.Name)}
+	}
+	return expr
+}
+
+// boundTypeKey is the key of the type a wire.Bind expects a provider for.
+func boundTypeKey(wb *WireBind) string {
+	// wire.Bind(new(Interface), new(*Impl)) -> Implementation is **Impl
+	// We need to unwrap one level to get *Impl which matches the provider return type
+	implType := wb.Implementation
+	if ptr, ok := implType.(*types.Pointer); ok {
+		implType = ptr.Elem()
+	}
+	return resolvedTypeKey(implType)
+}
+
+// collectProviders maps the type of the first result of every provider function in the list
+// (nested sets included) to that provider.
+func (t *Transformer) collectProviders(elements []WirePattern) map[string]*WireProviderFunc {
+	providers := make(map[string]*WireProviderFunc)
+	for _, elem := range elements {
+		switch we := elem.(type) {
+		case *WireProviderFunc:
+			if we.Func == nil {
+				continue
+			}
+			sig, ok := we.Func.Type().(*types.Signature)
+			if !ok || sig.Results().Len() == 0 {
+				continue
+			}
+			key := resolvedTypeKey(sig.Results().At(0).Type())
+			if _, exists := providers[key]; !exists {
+				providers[key] = we
+			}
+		case *WireNewSet:
+			for key, provider := range t.collectProviders(we.Elements) {
+				if _, exists := providers[key]; !exists {
+					providers[key] = provider
+				}
+			}
+		}
+	}
+	return providers
+}
+
 func (t *Transformer) collectBoundTypes(elements []WirePattern) map[string]bool {
 	boundTypes := make(map[string]bool)
 	for _, elem := range elements {
@@ -130,11 +199,7 @@ func (t *Transformer) collectBoundTypes(elements []WirePattern) map[string]bool 
 		case *WireBind:
 			// wire.Bind(new(Interface), new(*Impl)) -> Implementation is **Impl
 			// We need to unwrap one level to get *Impl which matches the provider return type
-			implType := we.Implementation
-			if ptr, ok := implType.(*types.Pointer); ok {
-				implType = ptr.Elem()
-			}
-			boundTypes[resolvedTypeKey(implType)] = true
+			boundTypes[boundTypeKey(we)] = true
 		case *WireNewSet:
 			// Recursively collect from nested sets
 			maps.Copy(boundTypes, t.collectBoundTypes(we.Elements))
